@@ -51,6 +51,16 @@ var ErrInvalidKey = errors.New("invalid key")
 // ErrHardenedChildPublicKey is returned when ExtendedKey.DeriveChild is called with a hardened index on a public key.
 var ErrHardenedChildPublicKey = errors.New("cannot create hardened child from public parent key")
 
+// ErrHardenedOnly is returned when ExtendedKey.DeriveChild is called with a non-hardened index on a key
+// for which SLIP-10 only defines hardened derivation.
+var ErrHardenedOnly = errors.New("only hardened child derivation is defined for this key")
+
+// HardenedOnlyKey can be implemented by a Key of a curve for which SLIP-10 only defines hardened child keys (e.g. ed25519).
+type HardenedOnlyKey interface {
+	// HardenedOnly returns whether only hardened child derivation is defined for the key.
+	HardenedOnly() bool
+}
+
 // ExtendedKey represents a SLIP-10 extended private or public key.
 type ExtendedKey struct {
 	ChainCode []byte
@@ -164,6 +174,11 @@ func (e *ExtendedKey) DeriveChild(index uint32) (*ExtendedKey, error) {
 		}
 		inter = h.Sum(inter[:0])
 	} else {
+		// for some curves (e.g. ed25519) only hardened child keys are defined
+		if k, ok := e.Key.(HardenedOnlyKey); ok && k.HardenedOnly() {
+			return nil, ErrHardenedOnly
+		}
+
 		// I = HMAC-SHA512(Key = chain_par, Data = ser_P(public_par) || ser32(index)),
 		// where public_par = key_par if par is a public key, or public_par = point(key_par) otherwise
 		h, err := hmacSHA512(e.ChainCode, e.Key.Public().Bytes(), uint32Bytes(index))
